@@ -5,10 +5,9 @@ import fcntl
 import os
 import tempfile
 
-from ..boot import HarnessError
+from ..boot import HarnessError, VOFFSET as _VOFFSET
 
 _LOOP = None
-_VOFFSET = [0.0]
 _SLOT = None
 _SLOT_FH = None
 SLOT_DIR = os.path.join(tempfile.gettempdir(), "aiosw-verif-slots")
